@@ -61,6 +61,10 @@ var c01Entries = []c01Entry{
 		m := database.NewMonitoredDatabase(db)
 		return [][]database.SearchResult{m.SearchWithMonitoring(q, o.Limit), m.SearchWithMonitoring(q, o.Limit)}
 	}},
+	// one cached database asked the same query under a series of limits: every answer must respect ITS limit
+	{"cached-limit-series", func(db *database.Database, q string, o database.SearchOptions) [][]database.SearchResult {
+		return nil // handled specially (needs per-call limits)
+	}},
 	// the CLI's flow: universal search, then the last-resort recovery search bounded by the limit
 	{"cli-recovery", func(db *database.Database, q string, o database.SearchOptions) [][]database.SearchResult {
 		res := db.SearchUniversal(q, o)
@@ -97,6 +101,9 @@ func calibrateDefaults() {
 	c01DefOnce.Do(func() {
 		db := gen.Load(fatalPanic{}, allMatching(150))
 		for _, e := range c01Entries {
+			if e.name == "cached-limit-series" {
+				continue
+			}
 			base := database.SearchOptions{AllPlatforms: true}
 			n0 := len(e.call(db, "alpha", withLimit(base, 0))[0])
 			n1 := len(e.call(db, "alpha", withLimit(base, -1))[0])
@@ -165,6 +172,7 @@ func c01Engine(useShipped bool) func(t *rapid.T) {
 			o := gen.CmdOpts{Platforms: true, Unicode: rapid.IntRange(0, 3).Draw(t, "unicode-db") == 0}
 			cmds, cls = gen.DB(t, o, nil)
 			db = gen.Load(t, cmds)
+			warmUp(t, db, cmds)
 		}
 		var q string
 		var qcls gen.QueryClass
@@ -195,9 +203,34 @@ func c01Engine(useShipped bool) func(t *rapid.T) {
 		if limit <= 0 {
 			limit = c01Default[e.name]
 		}
-		lists := e.call(db, q, opt)
 		labels := []string{"db:" + string(cls), "q:" + string(qcls), "entry:" + e.name}
 		nontrivial := false
+		if e.name == "cached-limit-series" {
+			m := database.NewMonitoredDatabase(db)
+			for i := rapid.IntRange(2, 5).Draw(t, "series-len"); i > 0; i-- {
+				so := opt
+				so.Limit = rapid.SampledFrom([]int{0, -1, 1, 2, 3, 5, 10, 100}).Draw(t, "series-limit")
+				sl := so.Limit
+				if sl <= 0 {
+					sl = c01Default["cached"]
+				}
+				var res []database.SearchResult
+				if rapid.Bool().Draw(t, "series-monitored") {
+					res = m.SearchWithOptionsAndMonitoring(q, so)
+				} else {
+					res = m.SearchWithOptionsAndCache(q, so)
+				}
+				if msg := validList(db, res, sl); msg != "" {
+					t.Fatalf("%s (cached database, series of limits, this call Limit=%d; query=%q options=%v)\ndb=%v", msg, so.Limit, q, optBrief(so), gen.BriefDB(cmds, 12))
+				}
+				if len(res) >= 2 || len(res) == sl {
+					nontrivial = true
+				}
+			}
+			rec.Case(nontrivial, map[string]any{"db_class": cls, "db_size": len(cmds), "query": q, "options": optBrief(opt), "entry": e.name}, append(labels, "cache-hit-path")...)
+			return
+		}
+		lists := e.call(db, q, opt)
 		for ci, res := range lists {
 			if msg := validList(db, res, limit); msg != "" {
 				t.Fatalf("%s (entry=%s call=%d query=%q options=%v)\ndb=%v", msg, e.name, ci, q, optBrief(opt), gen.BriefDB(cmds, 12))
